@@ -114,7 +114,7 @@ def run(tier):
         "states": states, "transitions": gen, "traces_validated_against_impl": len(ok), "non_vacuity": nv,
         "cases_from_model": len(cases), "pair_cases": len(scs) // reps - len(cases), "unsteered": len(rep["unsteered"]),
         "evaluations": len(ok), "distinct_nontrivial": distinct,
-        "rule": "every (request kind, waiting location, cause) of Blocking.tla x benign broker traffic before the call (unsolicited PINGRESP / foreign acknowledgements / inbound message) + pairs of simultaneously blocked calls x closing causes; distinct = distinct steered (kind, location, cause, second call)",
+        "rule": "every (request kind, waiting location, cause) of Blocking.tla x benign broker traffic before the call (unsolicited PINGRESP / foreign acknowledgements / inbound message / repeated CONNACKs) + pairs of simultaneously blocked calls x closing causes; distinct = distinct steered (kind, location, cause, second call)",
         "samples": [ok[0], ok[len(ok) // 2]] if ok else [], "exhaustive": True,
     }, time.time() - t0, ["A4: Transport.Write and Transport.Close return", "'promptly' = within 2 s; a missing return must reproduce on two re-runs",
                            "steering withholds the broker packet the call waits for; the goroutine census is taken with one case per process at a time"],
